@@ -183,6 +183,15 @@ class Recorder:
 
 
 # ------------------------------------------------------------------ part 1: runlength functions
+THIN = False      # quick tier: every third (rotating) of the index lists of length 3 in exhaustive enumerations
+
+
+def thin_triples(lists, phase):
+    if not THIN:
+        return lists
+    return [l for k, l in enumerate(lists) if len(l) < 3 or k % 3 == phase]
+
+
 def index_lists(n, rs, exhaustive):
     """index lists into a sequence of length n: (list, kind)"""
     if n == 0:
@@ -191,7 +200,7 @@ def index_lists(n, rs, exhaustive):
         out = []
         for m in (1, 2, 3):
             out += [list(t) for t in itertools.product(range(n), repeat=m)]
-        return out
+        return thin_triples(out, int(rs.randint(3)))
     pts = sorted({0, n - 1, n // 2, max(0, n - 2), min(1, n - 1)})
     s3 = sorted(rs.choice(n, size=min(3, n), replace=False).tolist())
     return [s3, s3[::-1], [pts[-1], pts[0], pts[-1]], [int(rs.randint(n))], pts]
@@ -806,7 +815,7 @@ def gen_enc_cases(chunk):
         # gathers: all positions in order / reversed, a repeated unsorted triple, a single index
         glists = [allidx, allidx[::-1], [allidx[j] for j in rs.randint(0, size, size=3)], [allidx[-1]]]
         if exh:
-            glists = [list(t) for m in (1, 2, 3) for t in itertools.product(allidx, repeat=m)]
+            glists = thin_triples([list(t) for m in (1, 2, 3) for t in itertools.product(allidx, repeat=m)], salt % 3)
         for gl in glists:
             do_read(R, "gather_nd", {"arg": gl},
                     lambda: {"v": ints(e.gather_nd(np.array(gl, dtype=np.int64).reshape((-1, nd))))})
@@ -886,7 +895,7 @@ def encoding_work(tier):
                 if big:
                     stride = 4 if size == 8 and len(chain) == full else 1
                 else:
-                    stride = {8: 6, 6: 3 if len(shape) == 3 else 2}.get(size, 1) if len(chain) == full else 1
+                    stride = {8: 8, 6: 4 if len(shape) == 3 else 3}.get(size, 1) if len(chain) == full else (2 if size == 8 else 1)
             else:
                 stride = {3: 2, 4: 5, 6: 10, 8: 40}[size] if big else {3: 1, 4: 5, 6: 12, 8: 48}[size]
             exh = len(chain) <= 1 and size <= 4
@@ -1400,6 +1409,41 @@ def gen_grid_cases(chunk):
                           "rM4": [ints(row) for row in snap(T[:3, :3], 4)], "rt4": ints(snap(T[:3, 3], 4))})
                 return r
             add(base, reload)
+        elif what == "binvox_far":
+            # a finely pitched grid far from the origin: pitch = 1 / den, origin = o / den with |o| up to
+            # 2^30, i.e. an origin-to-pitch ratio (and values) no single precision number can hold; the
+            # reloaded grid is judged through its own index <-> point maps at the ORIGINAL cell centres
+            _, shape, data, kind, den, o, signs, order = item
+            arr = np.array(data, dtype=bool).reshape(shape)
+            idx = [list(t) for t in np.ndindex(*shape)]
+            base = {"fn": "grid_binvox_far", "shape": list(shape), "data": list(data), "base": kind, "den": den,
+                    "o": list(o), "signs": list(signs), "axis_order": order, "idx": idx}
+
+            def far():
+                pitch = 1.0 / den
+                T = np.eye(4)
+                T[:3, :3] = np.diag(np.array(signs, dtype=np.float64) * pitch)
+                T[:3, 3] = np.array(o, dtype=np.float64) / den
+                g = voxel.VoxelGrid(make_base(enc, kind, arr), transform=T)
+                g2 = trimesh.exchange.binvox.load_binvox(io.BytesIO(g.export(file_type="binvox", axis_order=order)),
+                                                         axis_order=order)
+                finite(g2.transform)
+                ia = np.array(idx, dtype=np.int64)
+                centres = g.indices_to_points(ia)
+                # where the reloaded grid puts the centres of the cells the original grid had there, in
+                # sixteenths of a cell relative to the origin (a change of frame; o / den is exact or
+                # within 1e-8 of a cell in doubles)
+                i0 = np.asarray(g2.points_to_indices(centres[:1]))[0]
+                back = np.asarray(g2.points_to_indices(centres))
+                # (a mirrored grid is re-oriented by the exporter: its cells are looked up through `back`)
+                at = back if min(signs) < 0 else ia
+                rel = (np.asarray(g2.indices_to_points(at)) * den - np.array(o, dtype=np.float64)) * 16.0
+                r16 = np.round(rel)
+                onlat = bool(np.all(np.abs(rel - r16) <= 1e-3))
+                return {"rshape": [int(v) for v in g2.shape], "rfilled": [ints(row) for row in np.argwhere(np.asarray(g2.matrix))],
+                        "back": [ints(b) for b in back], "rel16": [ints(r) for r in r16], "onlat": int(onlat),
+                        "filled2": ints(np.asarray(g2.is_filled(centres)).reshape(-1)), "first": ints(i0)}
+            add(base, far)
         elif what == "binvox_points":
             _, shape, data, kind, M4, t4, order = item[:7]
             extra = item[7] if len(item) > 7 else {}
@@ -1549,6 +1593,21 @@ def grid_work(tier):
                     hist = [dict(AXIS_STEPS[j]) for j in rs.randint(0, len(AXIS_STEPS), size=int(rs.randint(1, 3)))]
                     work.append(("binvox_points", shape, data, BASES[(k // 3) % 4], M4, [4, 0, -8], ("xzy", "xyz")[k % 2],
                                  {"hist": hist, "reads": HIST_READS if k % 2 else []}))
+    # finely pitched grids far from the origin (millimetre cells at survey-like coordinates): binary and
+    # decimal pitches, origins of 2^25 .. 2^30 cells (odd multiples of the pitch on some axis)
+    k = 0
+    for shape in ((2, 2, 2), (3, 3, 3), (5, 5, 5)):
+        size = int(np.prod(shape))
+        for den in (1024, 1000, 8, 100):
+            for mag in (25, 27, 30):
+                for _ in range(12 if big else 2):
+                    k += 1
+                    data = tuple(int(x) for x in rs.randint(0, 2, size=size))
+                    lo, hi = 2 ** (mag - 1), 2 ** mag - 64
+                    o = [int(rs.randint(lo, hi)) | 1, -(int(rs.randint(lo, hi)) | 1), int(rs.randint(0, 2 ** 20))]
+                    o = o[k % 3:] + o[:k % 3]
+                    signs = ((1, 1, 1), (1, 1, 1), (-1, 1, 1), (1, -1, -1))[k % 4]
+                    work.append(("binvox_far", shape, data, BASES[k % 4], den, o, signs, ("xzy", "xyz")[k % 2]))
     return work
 
 
@@ -1828,7 +1887,9 @@ REPORT_CAP = 40            # V.violation calls per (clause, deviation); the full
 
 def main(argv):
     import time
+    global THIN
     tier = tier_from_args(argv)
+    THIN = tier == "quick"
     V = Verdict(PROP, tier)
     import_trimesh()
     # 16 TLC shards run side by side; a shard needs < 1 GB (measured 0.5 - 0.7 GB resident) but the JVM
@@ -1900,7 +1961,10 @@ def main(argv):
         if nxt >= 2 ** 31:
             raise MachineryError("record ids beyond TLC integers")
         samples += [strip_sample(cases[len(cases) // 5]), strip_sample(cases[(len(cases) * 9) // 10])]
-        rejects, st, wall = tlc.validate_batches(f"c13/r{rk}", "RunLength", cases, CFG, timeout=2400)
+        # quick: 8 TLC shards instead of 16 - half the JVM start-ups (3.3 CPU-s each) and half the memory
+        # held at once (a shard was killed more than once on the shared machine); ~10 s more wall when idle
+        rejects, st, wall = tlc.validate_batches(f"c13/r{rk}", "RunLength", cases, CFG, timeout=2400,
+                                                 shards=8 if tier == "quick" else None)
         states += st
         tlc_wall += wall
         rejected += len(rejects)
@@ -1988,7 +2052,7 @@ FAMILY_MIN = {
     "fn_negative_index": 3000,
     "grid_rotated_transform": 300, "grid_history": 500, "grid_offcentre": 500, "grid_unit_axis": 300,
     "grid_single_or_block_points": 300, "grid_binvox_unit_axis": 200, "grid_binvox_mirrored_noncubic": 100, "grid_binvox_after_edit": 100,
-    "grid_maps_other_base": 600, "ops_optional_arguments": 8, "grid_strip": 200,
+    "grid_maps_other_base": 600, "ops_optional_arguments": 8, "grid_strip": 200, "grid_binvox_far_origin": 60,
 }
 
 
@@ -2030,6 +2094,8 @@ def families_of(c):
             out.append("grid_maps_other_base")
     elif fn == "grid_strip":
         out.append("grid_strip")
+    elif fn == "grid_binvox_far":
+        out.append("grid_binvox_far_origin")
     elif fn == "grid_binvox" and 1 in c["shape"]:
         out.append("grid_binvox_unit_axis")
     elif fn == "grid_binvox_points":
